@@ -85,25 +85,41 @@ pub enum Outcome {
     Panic(String),
     OverBudget,
     Error(String),
+    /// not evaluated: this worker has already seen several unifications that do not end, and each of those costs
+    /// seconds and gigabytes before its budget stops it; the run fails anyway, the remaining sets are left alone
+    Skipped,
 }
+
+thread_local! {
+    static OVER_BUDGET_SEEN: std::cell::Cell<u32> = const { std::cell::Cell::new(0) };
+}
+const OVER_BUDGET_TOLERATED: u32 = 6;
 
 pub const BUDGET: u64 = 5_000;
 
 /// Builds a fresh state with `n` opaque values, adds the judgements and runs unification under `plan`.
 pub fn run(n: usize, judgements: &[(usize, J)], plan: &Plan) -> (Outcome, Vec<OrderPoint>) {
+    if OVER_BUDGET_SEEN.with(|c| c.get()) > OVER_BUDGET_TOLERATED {
+        return (Outcome::Skipped, Vec::new());
+    }
     let (r, ctl) = with_controller(plan, || {
         let mut state = TypeCheckerState::empty();
         let vars: Vec<TypeVariable> = (0..n).map(|_| state.register(RSV::new_value(0, Provenance::Synthetic))).collect();
         for (v, j) in judgements {
             state.infer(vars[*v], to_te(j, &vars));
         }
-        let w = CountingWatchdog::new(1, Some(BUDGET));
+        let w = CountingWatchdog::with_deadline(1, Some(BUDGET), 3);
         let dw: sle::watchdog::DynWatchdog = w.clone();
         match unify(&mut state, &dw) {
             Ok(()) => {}
             Err(e) => {
                 let s = format!("{e:?}");
-                return if s.contains("StoppedByWatchdog") { Outcome::OverBudget } else { Outcome::Error(s) };
+                return if s.contains("StoppedByWatchdog") {
+                    OVER_BUDGET_SEEN.with(|c| c.set(c.get() + 1));
+                    Outcome::OverBudget
+                } else {
+                    Outcome::Error(s)
+                };
             }
         }
         let all_vars = state.variables();
